@@ -5,6 +5,7 @@ import (
 	"context"
 	"errors"
 	"fmt"
+	"strings"
 	"sync"
 	"testing"
 	"time"
@@ -33,9 +34,20 @@ type ConnCase struct {
 	Withhold   []int      `json:"withhold"` // per bystander upstream: number of trailing chunks whose ack is withheld until after the outage (0 = none)
 	Interleave []int      `json:"interleave"`
 	Policy     upk.Policy `json:"policy"`
+	// ReuseAliases: the broker hands a closed upstream's stream alias out again. LateUps: further bystander upstreams (QoS list)
+	// opened when the first ones are done; before each, a pilot stream is opened, acknowledged once and closed - so with alias
+	// reuse the late stream takes over the alias the pilot's acks were just routed for (seeded change C07/m3)
+	ReuseAliases bool  `json:"reuse_aliases,omitempty"`
+	LateUps      []int `json:"late_ups,omitempty"`
 }
 
 const perCall = 8 * time.Second
+
+// library defaults of an upstream opened without options (iscp/upstream.go, upstream_options.go)
+const (
+	defaultAckInterval = 100 * time.Millisecond
+	defaultExpiry      = 10 * time.Second
+)
 
 type upRec struct {
 	name     string
@@ -50,6 +62,7 @@ func runConn(c ConnCase, k *ev.Case) *ev.Failure {
 	defer w.Dispose()
 	w.DialDelay = 5 * time.Millisecond
 	b := w.Broker
+	b.ReuseUpAliases = c.ReuseAliases
 	var mu sync.Mutex
 	withheldLeft := map[uuid.UUID]map[uint32]bool{} // stream -> seq withheld (acked later)
 	type heldAck struct {
@@ -228,7 +241,9 @@ func runConn(c ConnCase, k *ev.Case) *ev.Failure {
 			vctx, vc := sim.Ctx(3 * time.Second)
 			switch v {
 			case "open-close-up":
-				if u, err := conn.OpenUpstream(vctx, fmt.Sprintf("victim-%d", vi), iscp.WithUpstreamQoS(message.QoS(vi%3)), iscp.WithUpstreamCloseTimeout(300*time.Millisecond)); err == nil {
+				// the victim configures its own ack interval, flush policy and expiry: no other stream's configuration may change with it
+				if u, err := conn.OpenUpstream(vctx, fmt.Sprintf("victim-%d", vi), iscp.WithUpstreamQoS(message.QoS(vi%3)), iscp.WithUpstreamCloseTimeout(300*time.Millisecond),
+					iscp.WithUpstreamAckInterval(time.Duration(700+vi)*time.Millisecond), iscp.WithUpstreamExpiryInterval(time.Duration(70+vi)*time.Second)); err == nil {
 					u.WriteDataPoints(vctx, &message.DataID{Name: "victim", Type: "t"}, &message.DataPoint{Payload: []byte("victim")})
 					u.Close(vctx)
 				}
@@ -301,6 +316,46 @@ func runConn(c ConnCase, k *ev.Case) *ev.Failure {
 	case <-wdone:
 	case <-time.After(perCall):
 		return ev.Failf("harness", "writers did not finish")
+	}
+	// late bystanders, each behind a pilot stream that was acknowledged and closed
+	qosOf := append(append([]int(nil), c.UpQoS...), c.LateUps...)
+	for li, q := range c.LateUps {
+		ph := &upk.HookRec{}
+		if pilot, err := conn.OpenUpstream(ctx, fmt.Sprintf("pilot-%d", li), iscp.WithUpstreamQoS(message.QoSReliable), iscp.WithUpstreamFlushPolicyNone(), iscp.WithUpstreamReceiveAckHooker(ph),
+			iscp.WithUpstreamCloseTimeout(500*time.Millisecond)); err == nil {
+			pctx, pc := sim.Ctx(2 * time.Second)
+			pilot.WriteDataPoints(pctx, &message.DataID{Name: "pilot", Type: "t"}, &message.DataPoint{Payload: []byte("pilot")})
+			pilot.Flush(pctx)
+			for dl := time.Now().Add(time.Second); time.Now().Before(dl); time.Sleep(200 * time.Microsecond) {
+				if _, after, _ := ph.Snapshot(); len(after) > 0 {
+					break
+				}
+			}
+			pilot.Close(pctx)
+			pc()
+		}
+		r := &upRec{name: fmt.Sprintf("l%d", li), hooks: &upk.HookRec{}}
+		r.up, err = conn.OpenUpstream(ctx, "by-"+r.name, iscp.WithUpstreamQoS(message.QoS(q)), c.Policy.Option(), iscp.WithUpstreamReceiveAckHooker(r.hooks),
+			iscp.WithUpstreamSendDataPointsHooker(r.hooks), iscp.WithUpstreamClosedEventHandler(r.hooks), iscp.WithUpstreamCloseTimeout(2*time.Second))
+		if err != nil {
+			return ev.Failf("harness", "open %s: %v", r.name, err)
+		}
+		ups = append(ups, r)
+		for n := 1; n <= c.Writes; n++ {
+			p := &message.DataPoint{ElapsedTime: upk.Elapsed(50+li, n), Payload: []byte(fmt.Sprintf("%s-point-%03d", r.name, n))}
+			id := &message.DataID{Name: "id-" + r.name, Type: "t"}
+			wctx, wc := sim.Ctx(perCall)
+			err := r.up.WriteDataPoints(wctx, id, p)
+			if err == nil {
+				err = r.up.Flush(wctx)
+			}
+			wc()
+			if err != nil {
+				break
+			}
+			r.accepted = append(r.accepted, sim.Point{Name: id.Name, Type: id.Type, Elapsed: p.ElapsedTime, Payload: p.Payload})
+		}
+		k.Label("late-upstream-behind-pilot")
 	}
 	feed(c.Chunks - c.Chunks/2)
 	// quiescence: readers have everything
@@ -382,6 +437,36 @@ func runConn(c ConnCase, k *ev.Case) *ev.Failure {
 				return ev.Failf("C07.2 ack-misdelivered", "the ack hook of %s received the result %q, which the broker addressed to another stream", r.name, a.ResultString).WithHistory(hist())
 			}
 		}
+		// configuration: what this stream asked the broker for, and what it reports as its configuration, is what it was opened with
+		// (bystanders are opened with the library defaults for ack interval and expiry) whatever other streams configured
+		if st != nil && st.OpenReq != nil {
+			if st.OpenReq.AckInterval != defaultAckInterval || st.OpenReq.ExpiryInterval != defaultExpiry {
+				return ev.Failf("C07.1 configuration-leak", "%s was opened with default options but asked the broker for ack interval %v / expiry %v (defaults %v / %v): another stream's options leaked", r.name,
+					st.OpenReq.AckInterval, st.OpenReq.ExpiryInterval, defaultAckInterval, defaultExpiry).WithHistory(hist())
+			}
+		}
+		if ai := r.up.Config.AckInterval; ai != nil && *ai != defaultAckInterval {
+			return ev.Failf("C07.1 configuration-leak", "%s was opened with default options; its Config now reports ack interval %v (default %v)", r.name, *ai, defaultAckInterval).WithHistory(hist())
+		}
+		// ... and every result the broker addressed to this stream reaches its hook (late is fine, lost is not)
+		if !c.Outage {
+			sent := 0
+			for _, e := range led {
+				if a, ok := e.Msg.(*message.UpstreamChunkAck); ok && !e.In {
+					for _, res := range a.Results {
+						if strings.HasPrefix(res.ResultString, want) {
+							sent++
+						}
+					}
+				}
+			}
+			for dl := time.Now().Add(2 * time.Second); len(after) < sent && time.Now().Before(dl); time.Sleep(time.Millisecond) {
+				_, after, _ = r.hooks.Snapshot()
+			}
+			if len(after) < sent {
+				return ev.Failf("C07.2 ack-lost", "the broker sent %d chunk results addressed to %s, its ack hook received %d", sent, r.name, len(after)).WithHistory(hist())
+			}
+		}
 		if closed {
 			k.Label("bystander-reported-closed")
 			if !c.Outage {
@@ -390,7 +475,7 @@ func runConn(c ConnCase, k *ev.Case) *ev.Failure {
 			continue
 		}
 		// every chunk this stream cut reached the broker with this stream's content, attributed to this stream
-		reliable := c.UpQoS[i] == 1
+		reliable := qosOf[i] == 1
 		for _, bc := range before {
 			var pts []sim.Point
 			for _, g := range bc.DataPointGroups {
@@ -403,7 +488,7 @@ func runConn(c ConnCase, k *ev.Case) *ev.Failure {
 				if c.Outage && !reliable {
 					continue // a non-reliable stream may lose what was in flight at the failure
 				}
-				return ev.Failf("C07.2 bystander-data-lost", "%s (qos %d): chunk seq %d was cut but never reached the broker, although nothing but OTHER streams' lifecycle%s happened", r.name, c.UpQoS[i], bc.SequenceNumber,
+				return ev.Failf("C07.2 bystander-data-lost", "%s (qos %d): chunk seq %d was cut but never reached the broker, although nothing but OTHER streams' lifecycle%s happened", r.name, qosOf[i], bc.SequenceNumber,
 					map[bool]string{true: " and a link failure that this reliable stream has to survive", false: ""}[c.Outage]).WithHistory(hist())
 			}
 			for _, e := range es {
@@ -492,6 +577,10 @@ var subConn = ev.Sub[ConnCase]{Name: "connection", Repeats: 10, Q: 40, T: 1200,
 		}
 		c.Victims = rapid.SliceOfN(rapid.SampledFrom([]string{"open-close-up", "open-close-down", "failed-open-up", "failed-open-down", "metadata", "dead-down-flood"}), 0, 8).Draw(t, "victims")
 		c.Interleave = rapid.SliceOfN(rapid.SampledFrom([]int{0, 0, 20, 100, 400}), 1, 5).Draw(t, "interleave")
+		c.ReuseAliases = rapid.Bool().Draw(t, "reuse")
+		if !c.Outage && rapid.IntRange(0, 2).Draw(t, "late") == 0 {
+			c.LateUps = rapid.SliceOfN(rapid.IntRange(0, 2), 1, 2).Draw(t, "lateups")
+		}
 		return c
 	}, Run: runConn}
 
